@@ -206,6 +206,38 @@ def run(ctx):
         if (okr and (o[0] != "ok" or o[1].ticks != s << 64)) or (not okr and o[:2] != ("err", "OverflowError")):
             ctx.violation(path="TimeDelta(int)", seconds=s, observed=show(o), required="s<<64 or OverflowError")
         ctx.case(("ctor", s))
+    # every public way of making a TimeDelta / DateTime yields a value inside the signed 128-bit range that round-trips, or raises:
+    # seconds given as Decimal / float at the very ends of the range (where rounding the fraction carries into the whole seconds),
+    # products and sums that land on the limits
+    from decimal import Decimal
+    import math
+    import pickle as _pickle
+    import decimal as _decimal
+    ends = []
+    _lc = _decimal.localcontext()
+    _c = _lc.__enter__(); _c.prec = 120                 # the sums below need more than the default 28 digits
+    for k in (17, 18, 19, 20, 21, 25, 30):
+        for base in (1 << 63, -(1 << 63)):
+            for sgn in (1, -1):
+                ends.append(Decimal(base) + sgn * Decimal(10) ** -k)
+    ends += [Decimal((1 << 63) - 1) + Decimal("0.99999999999999999998"), Decimal(-(1 << 63)) - Decimal("0.00000000000000000002"), Decimal((1 << 63) - 1) + Decimal("0.5"),
+             math.nextafter(float(1 << 63), 0.0), -float(1 << 63), math.nextafter(-float(1 << 63), -math.inf), float(1 << 63)]
+    _lc.__exit__(None, None, None)
+    makers = [("TimeDelta(x)", lambda x: bt.TimeDelta(x)), ("TimeDelta(1) * x", lambda x: bt.TimeDelta(1) * x),
+              ("DateTime.from_offset(TimeDelta(x))", lambda x: bt.DateTime.from_offset(bt.TimeDelta(x)))]
+    for x in ends:
+        for label, mk in makers:
+            o = outcome(mk, x)
+            ctx.case(("range-end", label, repr(x)))
+            if o[0] != "ok":
+                if o[1] != "OverflowError":
+                    ctx.violation(path=label, value=repr(x), observed=show(o), required="a value in range or OverflowError")
+                continue
+            y = o[1]
+            r = outcome(lambda: (type(y).from_tuple(y.to_tuple()).ticks, _pickle.loads(_pickle.dumps(y)).ticks, type(y).from_ticks(y.ticks).ticks))
+            if not (I128_MIN <= y.ticks <= I128_MAX) or r != ("ok", (y.ticks, y.ticks, y.ticks)):
+                ctx.violation(path=label, value=repr(x), observed=f"ticks {y.ticks}; tuple / pickle / from_ticks round trip: {show(r)[:120]}",
+                              required="a tick count in [-2^127, 2^127) that round-trips, or OverflowError")
     # wrong types never produce a value
     for bad in (1.5, "1", None, b"1"):
         for cls in (bt.TimeDelta, bt.DateTime):
